@@ -451,8 +451,9 @@ def run(ctx):
         why[pos].append(w)
     if not only_pinned:
         selftest(ctx, lines)
-    # every rejected call is re-run in a fresh driver process, one call at a time, and re-validated; a budget rejection must
-    # repeat in up to three fresh runs unless the call is clearly (2x) over the CPU budget
+    # every rejected call is re-run in a fresh driver process, one call at a time, and re-validated; a budget rejection (process CPU
+    # time / allocation, never wall time) must repeat in three fresh runs out of three, otherwise it is not reported at all - a pinned
+    # known witness that does not reproduce is simply silent
     bad = sorted(why)
     reproduced = 0
     if len(bad) > 1000:
@@ -475,8 +476,8 @@ def run(ctx):
                 final.pop(pos, None)          # a fresh run satisfies the relation: not reproduced
                 continue
             final[pos] = (ev1[k], w1[k])
-            if w1[k] == ['WithinBudget'] and ev1[k]['cpu_us'] <= 2 * (250000 + 5 * ev1[k]['n']):
-                nxt.append(pos)               # marginal budget rejection: look for a cheaper run
+            if w1[k] == ['WithinBudget']:
+                nxt.append(pos)               # a budget rejection counts only if three fresh runs in a row all exceed the budget
         pending = nxt
     for pos in sorted(final):
         e1, ws = final[pos]
